@@ -380,6 +380,17 @@ func genCase(t *rapid.T) (Case, bool) {
 		fn = append(fn, n)
 	}
 	sort.Strings(fn)
+	if rapid.IntRange(0, 4).Draw(t, "rawpaths") == 0 {
+		// import paths written as raw strings (legal Go; gofmt keeps them)
+		for _, n := range fn {
+			for _, l := range p.Libs {
+				if rapid.Bool().Draw(t, "raw") {
+					c.Root[n] = strings.Replace(c.Root[n], "\""+l.ImportPath+"\"", "`"+l.ImportPath+"`", 1)
+				}
+			}
+		}
+		h.Label("raw-string-import-paths")
+	}
 	c.Target = fn[rapid.IntRange(0, len(fn)-1).Draw(t, "target")]
 	if len(fn) > 1 && rapid.Bool().Draw(t, "donor") {
 		for _, n := range fn {
@@ -446,6 +457,7 @@ func TestPropRestore(t *testing.T) { rapid.Check(t, prop) }
 
 func TestReplay(t *testing.T) {
 	known.RunRegressions(t, "C07")
+	TestReplayCgoGrouped(t)
 	// cgo: the "C" import is never removed and a new block goes below a leading cgo block
 	for i, src := range []string{
 		"package root\n\n// #include <stdio.h>\nimport \"C\"\n\nfunc f() {\n\t_ = C.x\n}\n",
@@ -490,6 +502,81 @@ func TestReplay(t *testing.T) {
 		}
 		h.NonTrivial("Cgo", src)
 	}
+}
+
+// cgoGrouped: "C" first in a parenthesised block together with ordinary imports; the other specs
+// of that block must still be maintained (dropped when unused, renamed on request).
+func TestReplayCgoGrouped(t *testing.T) {
+	const sub = "CgoGrouped"
+	src := "package root\n\nimport (\n\t\"C\"\n\t\"fmt\"\n\t\"os\"\n)\n\nfunc f() {\n\t_ = C.x\n\tfmt.Println()\n}\n\nfunc g() {\n\t_ = os.Args\n}\n"
+	type sc struct {
+		name    string
+		dropG   bool
+		alias   map[string]string
+		want    map[string]string // path -> local name ("" = no alias)
+		wantNot []string
+	}
+	for _, c := range []sc{
+		{"noop", false, nil, map[string]string{"C": "", "fmt": "", "os": ""}, nil},
+		{"os-becomes-unused", true, nil, map[string]string{"C": "", "fmt": ""}, []string{"os"}},
+		{"alias-requested", false, map[string]string{"fmt": "f"}, map[string]string{"C": "", "fmt": "f", "os": ""}, nil},
+	} {
+		h.Eval(sub)
+		fset := token.NewFileSet()
+		af, err := parser.ParseFile(fset, "a.go", src, parser.ParseComments)
+		if err != nil {
+			t.Fatal(err)
+		}
+		df, err := decorator.NewDecoratorWithImports(fset, "root", pkgResolver{"fmt": "fmt", "os": "os"}).DecorateFile(af)
+		if err != nil {
+			t.Fatal(err)
+		}
+		if c.dropG {
+			df.Decls = df.Decls[:len(df.Decls)-1]
+		}
+		fr := decorator.NewRestorerWithImports("root", guess.New()).FileRestorer()
+		for k, v := range c.alias {
+			fr.Alias[k] = v
+		}
+		var buf bytes.Buffer
+		if err := fr.Fprint(&buf, df); err != nil {
+			h.Fail(t, sub, c.name, "restore: %v", err)
+		}
+		of, err := parser.ParseFile(token.NewFileSet(), "", buf.Bytes(), parser.ParseComments)
+		if err != nil {
+			h.Fail(t, sub, c.name, "output does not parse: %v\n%s", err, buf.String())
+		}
+		got := map[string]string{}
+		for _, is := range of.Imports {
+			p, _ := strconv.Unquote(is.Path.Value)
+			if _, dup := got[p]; dup {
+				h.Fail(t, sub, c.name, "%q imported twice\n%s", p, buf.String())
+			}
+			got[p] = ""
+			if is.Name != nil {
+				got[p] = is.Name.Name
+			}
+		}
+		if fmt.Sprint(got) != fmt.Sprint(c.want) {
+			h.Fail(t, sub, c.name, "scenario %s: imports are %v, want %v\n%s", c.name, got, c.want, buf.String())
+		}
+		if c.alias["fmt"] == "f" && !strings.Contains(buf.String(), "f.Println()") {
+			h.Fail(t, sub, c.name, "reference not rewritten to the requested alias\n%s", buf.String())
+		}
+		h.NonTrivial(sub, c.name)
+	}
+}
+
+// pkgResolver resolves selectors on the given package names (syntax only, for cgo files).
+type pkgResolver map[string]string
+
+func (r pkgResolver) ResolveIdent(file *ast.File, parent ast.Node, parentField string, id *ast.Ident) (string, error) {
+	if se, ok := parent.(*ast.SelectorExpr); ok && parentField == "Sel" {
+		if x, ok := se.X.(*ast.Ident); ok {
+			return r[x.Name], nil
+		}
+	}
+	return "", nil
 }
 
 // nilResolver resolves nothing (the cgo files are not type-checked).
